@@ -103,6 +103,12 @@ func sameState(a, b ValSnap) bool {
 	return x.Ov().Coq() == y.Ov().Coq()
 }
 
+// sameStore: sameState without the keeper's in-memory plan registry
+func sameStore(a, b ValSnap) bool {
+	a.Plans, b.Plans = nil, nil
+	return sameState(a, b)
+}
+
 func monitorVal(rep *Report, r *ValRun) valMonResult {
 	res := valMonResult{PlanSig: map[string]int{}}
 	if r.Dead() {
@@ -130,6 +136,7 @@ func monitorVal(rep *Report, r *ValRun) valMonResult {
 			Detail: map[string]interface{}{"state_after_step": r.Snaps[step].Ov().Coq()}})
 		internOff = false
 	}
+	dry := map[int64]bool{} // heights whose block was pre-executed on a discarded branch
 	plans := map[uint64]planInfo{}
 	removed := map[uint64]bool{}
 	exp := map[int64][]KP{}
@@ -198,6 +205,11 @@ func monitorVal(rep *Report, r *ValRun) valMonResult {
 		}
 		// ---- per kind ----
 		switch kind {
+		case "dryblock":
+			dry[op.H] = true
+			if !sameStore(prev, s) {
+				viol(i, "C14:discarded-execution-changed-state", "executing a block on a discarded cache branch changed the stored state")
+			}
 		case "rm":
 			if s.Verdict == "OK" {
 				removed[op.Op] = true
@@ -264,7 +276,7 @@ func monitorVal(rep *Report, r *ValRun) valMonResult {
 			if s.Verdict != "OK" {
 				if _, has := plans[uint64(op.H)]; has {
 					res.PlanRuns++
-					viol(i, "C14:plan-failed", "EndBlocker failed at the plan height: "+s.Err)
+					viol(i, planFailSig(dry[op.H]), "EndBlocker failed at the plan height: "+s.Err)
 				} else {
 					viol(i, "C13:end-block-failed", "EndBlocker failed: "+s.Err)
 				}
@@ -323,7 +335,7 @@ func monitorVal(rep *Report, r *ValRun) valMonResult {
 				}
 				if len(problems) > 0 {
 					for _, p := range problems {
-						viol(i, "C14:plan-failed", p)
+						viol(i, planFailSig(dry[op.H]), p)
 					}
 				} else if stepTaint == "" {
 					res.PlanGood++
@@ -342,6 +354,16 @@ func monitorVal(rep *Report, r *ValRun) valMonResult {
 		}
 	}
 	return res
+}
+
+// a plan that fails in the good situation; named after the discarded pre-execution of its block
+// when there was one (the plan table is node memory, not store state: a discarded run must not
+// consume the plan)
+func planFailSig(afterDry bool) string {
+	if afterDry {
+		return "C14:plan-not-applied-after-discarded-execution"
+	}
+	return "C14:plan-failed"
 }
 
 // classifyPlan names the structural situation of a plan against the state before its end block
